@@ -6914,7 +6914,7 @@ int32_t psOcspParseResponse(psPool_t *pool, int32_t len, unsigned char **cp,
     }
 
     /* responseBytes       [0] EXPLICIT ResponseBytes OPTIONAL, */
-    if (*p == (ASN_CONSTRUCTED | ASN_CONTEXT_SPECIFIC | 0))
+    if (p < end && *p == (ASN_CONSTRUCTED | ASN_CONTEXT_SPECIFIC | 0))
     {
         p++;
         if (getAsnLength32(&p, (uint32_t) (end - p), &blen, 0) < 0 ||
@@ -6940,7 +6940,7 @@ int32_t psOcspParseResponse(psPool_t *pool, int32_t len, unsigned char **cp,
             psTraceCrypto("responseType parse error in psOcspParseResponse\n");
             return PS_PARSE_FAIL;
         }
-        if ((*p++ != ASN_OCTET_STRING) ||
+        if ((end - p) < 1 || (*p++ != ASN_OCTET_STRING) ||
             getAsnLength32(&p, (int32) (end - p), &blen, 0) < 0 ||
             (uint32) (end - p) < blen)
         {
